@@ -14,7 +14,10 @@ SPEC = {
         ('K-first', 'first', '^(score:|fields:|wiring:)'),
         ('K-update(slot-complete)', 'update', '^update:(slot-complete|loser|returns)'),
         ('K-trans(documented formulas)', 'trans', '^trans:'),
-        ('K-obs(documented formulas)', 'obs', '^obs:')],
+        ('K-obs(documented formulas)', 'obs', '^obs:'),
+        ("_match_states(every call of next() gets segment objects of its own: next() writes into them)", 'match_states', '^fresh:'),
+        ("non-emitting search, inner levels(segment objects per call)", 'ne_inner', '^fresh:'),
+        ("non-emitting search, link to the next observation(segment objects per call)", 'ne_end', '^fresh:')],
     'bounded': [
         ('rescore-best-path', suites.case_C02, 1500, 25000, RULE + '; ' + 'non-trivial = the path contains a non-emitting state or the history has more than one operation; histories of <= 4 operations (match, extend, widen)', '')],
 }
